@@ -427,6 +427,54 @@ Definition grid_round (g : positive) (q : Q) : Z :=
   Qfloor (q * inject_Z (Zpos g) + (1 # 2))%Q.
 Definition on_grid (g : positive) (z : Z) : Q := inject_Z z / inject_Z (Zpos g).
 
+
+(* ------------------------------------------------------------------ integer evaluation *)
+(* The run-time oracle works on integers of bounded size (the extracted arithmetic is bit by bit).
+   de Casteljau at the parameter tn/den on integer control points, without any division: the
+   result is the curve point times den^(count-1)  (decasteljauZ_lemma in BezierProofs.v). *)
+Definition lerpZ (den tn a b : Z) : Z := (den - tn) * a + tn * b.
+Fixpoint dcz_step (den tn : Z) (l : list Z) : list Z :=
+  match l with
+  | a :: (b :: _) as tl => lerpZ den tn a b :: dcz_step den tn tl
+  | _ => []
+  end.
+Fixpoint dcz_iter (fuel : nat) (den tn : Z) (l : list Z) : Z :=
+  match fuel with
+  | O => hd 0 l
+  | S f => match l with
+           | [] => 0
+           | [a] => a
+           | _ => dcz_iter f den tn (dcz_step den tn l)
+           end
+  end.
+Definition decasteljauZ1 (den tn : Z) (l : list Z) : Z := dcz_iter (length l) den tn l.
+Definition decasteljauZ (den tn : Z) (l : list zpt) : zpt :=
+  (decasteljauZ1 den tn (map fst l), decasteljauZ1 den tn (map snd l)).
+
+(* nearest integer of z / 2^k *)
+Definition round_shift (k : Z) (z : Z) : Z := Z.shiftr (z + Z.shiftl 1 (k - 1)) k.
+
+(* a rational point of the unit circle in homogeneous integers (x, y, d), x^2 + y^2 = d^2:
+   half-angle tangent a/b, then `quad` quarter turns *)
+Definition circle_h (quad a b : Z) : Z * Z * Z :=
+  let x := b * b - a * a in
+  let y := 2 * a * b in
+  let d := b * b + a * a in
+  match quad mod 4 with
+  | 0 => (x, y, d)
+  | 1 => (- y, x, d)
+  | 2 => (- x, - y, d)
+  | _ => (y, - x, d)
+  end.
+(* centre + M (x/d, y/d), times d, for an integer matrix and centre *)
+Definition ell_map_h (cx cy m11 m12 m21 m22 : Z) (p : Z * Z * Z) : Z * Z * Z :=
+  let '(x, y, d) := p in
+  (cx * d + m11 * x + m12 * y, cy * d + m21 * x + m22 * y, d).
+(* the distance test for a point given as (xn/d, yn/d), d > 0 *)
+Definition h_seg_closer (p : Z * Z * Z) (a b : zpt) (r : Z) : bool :=
+  let '(xn, yn, d) := p in
+  seg_closer_than (xn, yn) (d * fst a, d * snd a) (d * fst b, d * snd b) (d * r).
+
 Local Open Scope Q_scope.
 
 (* ------------------------------------------------------------------ circle / ellipse points *)
